@@ -10,7 +10,7 @@ fi
 rsync -a --delete --exclude .work --exclude .git --exclude go.mod /verif/ $u/verif/
 git -C $u/repo checkout -q --detach $(git -C /repo rev-parse HEAD) 2>/dev/null
 git -C $u/repo checkout -- . ; git -C $u/repo clean -fdq
-git -C $u/repo apply seeded/$id-$k/patch.diff || { echo "RESULT $id-$k patch-does-not-apply"; exit 1; }
+git -C $u/repo apply /verif/seeded/$id-$k/patch.diff || { echo "RESULT $id-$k patch-does-not-apply"; exit 1; }
 out=$(cd $u/verif && VERIF_REPO=$u/repo ./check $id --tier $tier 2>&1 | tail -400)
 git -C $u/repo checkout -- . ; git -C $u/repo clean -fdq
 rc=$(echo "$out" | grep -c '^VIOLATION'); ok=$(echo "$out" | grep -c '^OK property')
